@@ -429,11 +429,31 @@ func check(bin, dir, prop, tier string, base uint64, workers int, scale float64,
 		results = append(results, fr)
 		// group failures by class; report the lowest index of each class
 		sort.Slice(fr.failures, func(i, j int) bool { return fr.failures[i].Index < fr.failures[j].Index })
+		// A failing run whose (unshrunk) message already matches a message-identified known finding is not
+		// allowed to hide other violations of the same class: those are set aside (one representative is
+		// still shrunk, replayed and printed as KNOWN-FINDING), every other failure is treated on its own.
 		seen := map[string]int{}
+		knownSeen := map[*knownFinding]int{}
 		for _, f := range fr.failures {
-			seen[f.Class]++
-			if seen[f.Class] > 2 { // up to two witnesses per class are shrunk and matched
-				continue
+			var pre *knownFinding
+			for i := range known {
+				k := &known[i]
+				if k.Status == "known" && k.Property == prop && k.Class == f.Class && k.MsgContains != "" && len(k.WitnessAll) == 0 &&
+					(k.Family == "" || k.Family == d.Name) && strings.Contains(f.Msg, k.MsgContains) {
+					pre = k
+					break
+				}
+			}
+			if pre != nil {
+				knownSeen[pre]++
+				if knownSeen[pre] > 1 {
+					continue
+				}
+			} else {
+				seen[f.Class]++
+				if seen[f.Class] > 2 { // up to two witnesses per class are shrunk and matched
+					continue
+				}
 			}
 			rf := reportFailure(bin, dir, prop, tier, base, d, f)
 			if rf == nil {
@@ -470,6 +490,11 @@ func check(bin, dir, prop, tier string, base uint64, workers int, scale float64,
 				cl[f.Class]++
 			}
 			fmt.Printf("  failing runs by class (first violation of each run): %v\n", cl)
+			var sb strings.Builder
+			for _, f := range fr.failures {
+				fmt.Fprintf(&sb, "%d\t%s\t%s\n", f.Index, f.Class, strings.SplitN(f.Msg, "\n", 2)[0])
+			}
+			os.WriteFile(filepath.Join(verifDir, ".build", "failures-"+prop+"-"+fr.desc.Name+".txt"), []byte(sb.String()), 0o644)
 		}
 	}
 	if exit == 0 && len(probeMissing) > 0 {
@@ -590,7 +615,11 @@ func runFamily(bin, dir, prop, tier string, base uint64, workers int, scale floa
 
 // reportFailure shrinks, writes the replay file and confirms it in a fresh process.
 func reportFailure(bin, dir, prop, tier string, base uint64, d famDesc, f failure) *replayFile {
-	shr, out, err := runWorker(bin, dir, job{Prop: prop, Family: d.Name, Mode: "shrink", Tier: tier, Tape: f.Tape, Class: f.Class, WallS: 45}, 1, 4*time.Minute)
+	shrinkS := 20.0
+	if tier == "thorough" {
+		shrinkS = 90
+	}
+	shr, out, err := runWorker(bin, dir, job{Prop: prop, Family: d.Name, Mode: "shrink", Tier: tier, Tape: f.Tape, Class: f.Class, WallS: shrinkS}, 1, 4*time.Minute)
 	tape := f.Tape
 	shrunk := "not shrunk"
 	if err != nil {
